@@ -196,14 +196,16 @@ def render(by, where, nfiles, refs, alias, tstyle, order, other_path,
     return files
 
 
-def shape(n):
+def shape(n, qual=False):
     # an overriding rule is named by the qualified name it overrides
+    nm = n.symbol.fqn.replace(".", "_") if qual else \
+        n.symbol.name.split(".")[-1]
     if n.is_term():
-        return (n.symbol.name.split(".")[-1], n.value)
-    return (n.symbol.name.split(".")[-1], tuple(shape(c) for c in n))
+        return (nm, n.value)
+    return (nm, tuple(shape(c, qual) for c in n))
 
 
-def observe(kind, p, s, mon):
+def observe(kind, p, s, mon, qual=False):
     o = parse(p, s, mon)
     if o.kind == "ok":
         if kind == "lr":
@@ -214,7 +216,7 @@ def observe(kind, p, s, mon):
         n = fv.count()
         if n > 30:
             return ("ok", "many", str(n))
-        return ("ok", tuple(sorted((shape(o.value[i]) for i in range(n)),
+        return ("ok", tuple(sorted((shape(o.value[i], qual) for i in range(n)),
                                    key=repr)))
     if o.kind == "syntax":
         return ("syntax", o.exc.location.start_position)
@@ -255,11 +257,21 @@ SPECIAL = [
       "f1.pg": 'St: "a" "b" | "b";\n'},
      'S: St+;\nSt: "a" "b" | "b";\nLAYOUT: Sp | EMPTY;\nterminals\n'
      'Sp: /[_ ]+/;\n', "ab_", 6),
+    # two modules declare a terminal of the same name; both are expected in
+    # the same state and match the same text (GLR pursues both); names are
+    # compared fully qualified ('.' written '_' in the flattened text)
+    ("same-named-terminals/two-modules",
+     {"root.pg": "import 'l.pg';\nimport 'r.pg';\nS: E+;\nE: l.I | r.I;\n",
+      "l.pg": "I: W;\nterminals\nW: /[ab]/;\n",
+      "r.pg": "I: W | W W;\nterminals\nW: /[ab]/;\n"},
+     'S: E+;\nE: l_I | r_I;\nl_I: l_W;\nr_I: r_W | r_W r_W;\nterminals\n'
+     'l_W: /[ab]/;\nr_W: /[ab]/;\n', "ab", 4, "qualified"),
 ]
 
 
 def special_unit(u):
-    name, files, ftext, alpha, nmax = SPECIAL[u["special"]]
+    name, files, ftext, alpha, nmax = SPECIAL[u["special"]][:5]
+    qual = len(SPECIAL[u["special"]]) > 5
     mon = Monitor()
     judge = Judge(PROP, KNOWN)
     st = collections.Counter()
@@ -294,8 +306,8 @@ def special_unit(u):
                                      "flat": str(ps[1])[:40]}, case)
                 continue
             for s_ in inputs:
-                a = observe(kind, ps[0], s_, mon)
-                b = observe(kind, ps[1], s_, mon)
+                a = observe(kind, ps[0], s_, mon, qual)
+                b = observe(kind, ps[1], s_, mon, qual)
                 st["evaluations"] += 1
                 if b[0] == "ok":
                     st["nontrivial"] += 1
@@ -303,7 +315,7 @@ def special_unit(u):
                     judge.deviation(
                         "MODULAR", f"special/parse/{kind}", name, s_,
                         "modular grammar and flattened grammar disagree "
-                        "(grammar-wide KEYWORD / LAYOUT rule of the root file)",
+                        f"(special family: {name})",
                         {"modular": str(a)[:200], "flat": str(b)[:200]},
                         dict(case, input=s_, parser=kind))
     finally:
